@@ -235,6 +235,9 @@ func vDoneOf(p context.Context) chan struct{} {
 var (
 	vTimerBudget = 2
 	vTimersFired = 0
+	// vTimerStarved: a timer was due after the budget was used up (ghost; the harness may
+	// discard such a path as outside the bound instead of judging it)
+	vTimerStarved = false
 )
 
 //verif:stub time.After
@@ -244,6 +247,7 @@ func vstubTimeAfter(d time.Duration) <-chan time.Time {
 		<-vEnvTick()
 		vAtomic(1, &vTimersFired)
 		if vTimersFired >= vTimerBudget {
+			vTimerStarved = true
 			vAtomicEnd()
 			select {} // budget exhausted: never fires
 		}
